@@ -126,6 +126,33 @@ Qed.
 Lemma env_check k n s : env_of k (snd (check k n s)) = env_of k s.
 Proof. destruct (check_keeps_all k n s) as (_ & B & _ & _ & _ & _ & G & _). unfold env_of. rewrite B, G. reflexivity. Qed.
 
+(** a granted request of [n] leaves at least [n] in the remembered availability: the window the iterator holds covers what it asked for *)
+Lemma check_grants k n s s1 : check k n s = (true, s1) -> n <= ca (it_of k s1).
+Proof.
+  unfold check, refresh. destruct (n <=? ca (it_of k s)) eqn:E0; intros H; inversion H; subst.
+  - apply Nat.leb_le. exact E0.
+  - unfold set_ca, set_it, it_of. cbn [its]. rewrite tget_tset_same. cbn [ca]. apply Nat.leb_le. assumption.
+Qed.
+
+(** the cell at the local index lies in the window as soon as one slot is held; the cell [j] further on (no wrap) when more than [j] are *)
+Lemma window_here ix0 ca0 sl pubs evs nid out : 1 <= ca0 -> in_window (mkD (mkL ix0 ca0) sl pubs evs nid out) ix0 = true.
+Proof. intros H. unfold in_window. cbn [d_l d_slots l_index l_cached]. rewrite Nat.leb_refl. apply Nat.ltb_lt. lia. Qed.
+Lemma window_ahead ix0 ca0 sl pubs evs nid out j : j < ca0 -> in_window (mkD (mkL ix0 ca0) sl pubs evs nid out) (ix0 + j) = true.
+Proof.
+  intros H. unfold in_window. cbn [d_l d_slots l_index l_cached].
+  replace (ix0 <=? ix0 + j) with true by (symmetry; apply Nat.leb_le; lia). apply Nat.ltb_lt. lia.
+Qed.
+Lemma window_wrapped ix0 ca0 sl pubs evs nid out i : i < ix0 -> ix0 <= length sl -> i + length sl - ix0 < ca0 ->
+  in_window (mkD (mkL ix0 ca0) sl pubs evs nid out) i = true.
+Proof.
+  intros H H1 H2. unfold in_window. cbn [d_l d_slots l_index l_cached].
+  replace (ix0 <=? i) with false by (symmetry; apply Nat.leb_gt; lia). apply Nat.ltb_lt. lia.
+Qed.
+
+Lemma window_here_l k s1 sl pubs evs nid out : 1 <= ca (it_of k s1) ->
+  in_window (mkD (local_of k s1) sl pubs evs nid out) (ix (it_of k s1)) = true.
+Proof. apply window_here. Qed.
+
 Lemma ltb01 : (0 <? 1) = true. Proof. reflexivity. Qed.
 Lemma ltb_true a b : a < b -> (a <? b) = true. Proof. intros. apply Nat.ltb_lt. auto. Qed.
 Lemma leb_true a b : a <= b -> (a <=? b) = true. Proof. intros. apply Nat.leb_le. auto. Qed.
@@ -243,7 +270,8 @@ Proof.
   destruct (check C 1 s) as [g s1] eqn:Ck. cbn [fst snd] in *.
   destruct (check_keeps_all C 1 s) as (A & B & Pb & Nd & Ow & Ix & Sc & Dt). rewrite Ck in *. cbn [snd] in *.
   destruct g; dm.
-  - rewrite lift_get_index. repeat (progress (dm; cbn [local_of l_index]; rewrite ?(ltb_true _ _ Hi))).
+  - pose proof (check_grants _ _ _ _ Ck) as Hg.
+    rewrite lift_get_index. repeat (progress (dm; cbn [local_of l_index andb]; rewrite ?(ltb_true _ _ Hi), ?(window_here_l C s1), ?window_here by exact Hg)).
     rewrite (lift_advance C 1 s s1) by (first [exact Hwf1 | exact (one_le_len _ _ Hwf1) | exact He | symmetry; exact He]).
     set (s2 := set_slots (upd (ix (it_of C s1)) 0%N (slots s1)) s1).
     assert (D2 : det (it_of C s2) = false) by (unfold s2, set_slots, it_of in *; cbn [its] in *; congruence).
@@ -267,7 +295,8 @@ Proof.
   destruct (check C 1 s) as [g s1] eqn:Ck. cbn [fst snd] in *.
   destruct (check_keeps_all C 1 s) as (A & B & Pb & Nd & Ow & Ix & Sc & Dt). rewrite Ck in *. cbn [snd] in *.
   destruct g; dm.
-  - rewrite lift_get_index. repeat (progress (dm; cbn [local_of l_index]; rewrite ?(ltb_true _ _ Hi))).
+  - pose proof (check_grants _ _ _ _ Ck) as Hg.
+    rewrite lift_get_index. repeat (progress (dm; cbn [local_of l_index andb]; rewrite ?(ltb_true _ _ Hi), ?(window_here_l C s1), ?window_here by exact Hg)).
     rewrite (lift_advance C 1 s s1) by (first [exact Hwf1 | exact (one_le_len _ _ Hwf1) | exact He | symmetry; exact He]).
     assert (D2 : det (it_of C s1) = false) by congruence.
     destruct (advance_attached C 1 s1 D2) as (L & Pu & Sl & Ni & Ml & Oa).
@@ -310,7 +339,8 @@ Ltac push_tac :=
   destruct (check P 1 s) as [g s1] eqn:Ck; cbn [fst snd] in *;
   destruct (check_keeps_all P 1 s) as (A & B & Pb & Nd & Ow & Ix & Sc & Dt); rewrite Ck in *; cbn [snd] in *;
   destruct g; dm;
-  [ rewrite lift_get_index; repeat (progress (dm; cbn [local_of l_index]; rewrite ?(ltb_true _ _ Hi)))
+  [ pose proof (check_grants _ _ _ _ Ck) as Hg;
+    rewrite lift_get_index; repeat (progress (dm; cbn [local_of l_index andb]; rewrite ?(ltb_true _ _ Hi), ?(window_here_l P s1), ?window_here by exact Hg))
   | eexists _, _; split; [reflexivity|]; unfold ret; split; [|split]; [constructor; cbn; auto | reflexivity | split; reflexivity] ].
 
 Theorem tie_push : exists r d, drun (d_push E v) (view P s out) = Some (r, d) /\ push_res SAssign r d.
@@ -334,7 +364,7 @@ Theorem tie_push_init : exists r d, drun (d_push_init E v) (view P s out) = Some
 Proof.
   unfold d_push_init, d__push, d_next_ref_mut_init, d_advance. push_tac.
   set (old := nth (ix (it_of P s1)) (slots s) 0%N).
-  destruct (isz old) eqn:Z; repeat (progress (dm; cbn [local_of l_index]; rewrite ?(ltb_true _ _ Hi)));
+  destruct (isz old) eqn:Z; repeat (progress (dm; cbn [local_of l_index andb]; rewrite ?(ltb_true _ _ Hi), ?(window_here_l P s1), ?window_here by exact Hg));
   rewrite (lift_advance P 1 s s1) by (first [exact Hwf1 | exact (one_le_len _ _ Hwf1) | symmetry; exact He]);
   set (s2 := set_slots (upd (ix (it_of P s1)) v (slots s1)) s1);
   (assert (D2 : det (it_of P s2) = false) by (unfold s2, set_slots, it_of in *; cbn [its] in *; congruence));
@@ -368,7 +398,8 @@ Ltac xi_tac :=
   destruct (check C 1 s) as [g s1] eqn:Ck; cbn [fst snd] in *;
   destruct (check_keeps_all C 1 s) as (A & B & Pb & Nd & Ow & Ix & Sc & Dt); rewrite Ck in *; cbn [snd] in *;
   destruct g; dm;
-  [ rewrite lift_get_index; repeat (progress (dm; cbn [local_of l_index length upd nth]; rewrite ?(ltb_true _ _ Hi), ?ltb01))
+  [ pose proof (check_grants _ _ _ _ Ck) as Hg;
+    rewrite lift_get_index; repeat (progress (dm; cbn [local_of l_index length upd nth andb]; rewrite ?(ltb_true _ _ Hi), ?ltb01, ?(window_here_l C s1), ?window_here by exact Hg))
   | eexists _, _; split; [reflexivity|]; unfold ret; split; [constructor; cbn; auto | reflexivity] ].
 
 Theorem tie_copy_item : owned s = false ->
@@ -638,3 +669,31 @@ Proof. unfold succ_idx, g_succ, g_pub. destruct k; split; try reflexivity. destr
 (** and so a publication of the Model ([set_pub k]) is the store the source performs, the successor read by [fresh] the load it performs *)
 Corollary wiring_set_pub k i s : set_pub k i s = set_pub (g_pub k) i s.
 Proof. destruct (tie_wiring k s) as [_ H]. rewrite H. reflexivity. Qed.
+
+(** ** the access discipline every [= Some ..] of this file (and of DataTieSlices / DataTieV) carries
+
+    Reading or writing a buffer cell is DEFINED only inside the window the iterator holds ([in_window]: [l_cached] cells from the local
+    index on, cyclically).  So each tie theorem - "the translated function runs and gives the Model's result" - also says: the function
+    touches no cell before an availability check has covered it (a granted [check n] leaves [n <= l_cached], [check_grants]) and no
+    cell after [advance] has published it away ([advance] moves the local index past it and takes it out of [l_cached]).  That is
+    the source-level half of C03's disjoint windows and of C02's "data before publication / data after the index is read". *)
+Theorem access_inside_window E i d :
+  (forall v d', rd E (LBuf i) d = Some (v, d') -> i < length (d_slots d) /\ in_window d i = true) /\
+  (forall m v u d', store_mode E m (LBuf i) v d = Some (u, d') -> i < length (d_slots d) /\ in_window d i = true) /\
+  (forall v d', take_inner E (LBuf i) d = Some (v, d') -> i < length (d_slots d) /\ in_window d i = true) /\
+  (forall v d', inner_duplicate E (LBuf i) d = Some (v, d') -> i < length (d_slots d) /\ in_window d i = true) /\
+  (forall b d', check_zeroed E (LBuf i) d = Some (b, d') -> i < length (d_slots d) /\ in_window d i = true).
+Proof.
+  assert (R : forall v d', rd E (LBuf i) d = Some (v, d') -> i < length (d_slots d) /\ in_window d i = true).
+  { intros v d'. unfold rd. destruct (i <? length (d_slots d)) eqn:A; destruct (in_window d i) eqn:B; cbn [andb]; intros H; try discriminate.
+    split; [apply Nat.ltb_lt; exact A | reflexivity]. }
+  split; [exact R|].
+  assert (R2 : forall A (k : cell -> DM A) a d', dbind (rd E (LBuf i)) k d = Some (a, d') -> i < length (d_slots d) /\ in_window d i = true).
+  { intros A k a d'. unfold dbind. destruct (rd E (LBuf i) d) as [[x dx]|] eqn:Hr; [|discriminate]. intros _. exact (R x dx eq_refl). }
+  repeat split; intros; eapply R2; match goal with H : _ = Some _ |- _ => exact H end.
+Qed.
+
+(** outside the window nothing is defined: in particular not at the local index while nothing is held *)
+Lemma nothing_held_nothing_read E ix0 sl pubs evs nid out :
+  rd E (LBuf ix0) (mkD (mkL ix0 0) sl pubs evs nid out) = None.
+Proof. unfold rd, in_window. cbn [d_l d_slots l_index l_cached]. rewrite Nat.leb_refl, Nat.sub_diag. cbn. rewrite andb_false_r. reflexivity. Qed.
